@@ -2,7 +2,7 @@
 (* Validate (code -> spec) for C05: rewrites recorded from the real optimiser.
    A record is one call of tracer.optimize:
      [fires, passes, sizes]
-   fires  : sequence of [rule, perm, perm1, newperm, inshape, shape, newshape, n]
+   fires  : sequence of [rule, perm, perm1, newperm, inshape, shape, newshape, n, asserts, exact]
    passes : number of Optimizer passes that ran
    sizes  : number of call / cast / graph nodes reachable before each pass and after the last one *)
 EXTENDS Optimize, Json, IOUtils, TLCExt
@@ -23,7 +23,8 @@ FireOK(f) ==
     [] f.rule = "SkipReshape.merge"    -> SeqProd(f.newshape) = SeqProd(f.inshape) /\ f.newshape = f.shape
     [] f.rule = "SkipBroadcastTo.nop"  -> f.shape = f.inshape
     [] f.rule = "SkipConcatenate.single" -> f.n = 1
-    [] f.rule \in {"SkipCast", "InlineGraph"} -> TRUE
+    [] f.rule = "InlineGraph"          -> f.exact = 1 /\ f.asserts = 0     \* lambda xs: g(xs) with nothing else in it (no assertion, same arguments in the same order)
+    [] f.rule = "SkipCast"             -> TRUE
     [] OTHER -> FALSE
 
 (* termination: the graph never grows, every pass but the last fires at least once, and the number of passes is
